@@ -293,6 +293,9 @@ func drawDialectModel(t *rapid.T, idx int) XDialect {
 				case k < 7:
 					f.Type = rapid.SampledFrom(primTypes).Draw(t, "ftype")
 					f.ArrayLen = rapid.OneOf(rapid.IntRange(1, 6), rapid.IntRange(1, 60), rapid.IntRange(120, 250)).Draw(t, "arr") // long ones only fit with one-byte elements
+					if f.ArrayLen >= 120 && TypeSize(f.Type) > 1 {
+						f.Type = rapid.SampledFrom([]string{"uint8_t", "int8_t", "char"}).Draw(t, "ftype_long")
+					}
 				case k < 8:
 					f.Type = "uint8_t_mavlink_version"
 				case k < 10 && len(allEnums) > 0:
